@@ -77,4 +77,18 @@ TEXTS['C09'] = {
     'technique': "Lean 4 proof (telescoping invariant over op sequences) + differential correspondence",
 }
 
+TEXTS['C02'] = {
+    'text': "Lean theorems over every range, io_chunksize, attempt budget and every sequence of attempts with arbitrary short "
+            "reads and faults anywhere (unbounded): at most max_attempts GETs, non-retryable errors never retried, every write "
+            "lies in its range at the offset it was fetched from, success implies the range is covered; any interleaving of "
+            "such writes yields the object on offset-addressed destinations; for streaming destinations composition with the "
+            "C16 queue theorems gives exactly the object, in order, once. Tied to GetObjectTask / "
+            "ImmediatelyWriteIOGetObjectTask / DeferQueue by differential correspondence. Partial: the legacy "
+            "S3Transfer.download_file loop is judged end to end (bytes, GET budget) by the oracle, not modelled; the "
+            "process-pool loop is judged under C19; composition across threads is re-checked end to end by the scheduled explorer.",
+    'note': COMMON_NOTE + "Network bodies are scripted (short reads, retryable/non-retryable faults); destinations are real "
+            "files / BytesIO / a write-only stream. Defects D2 and D9 were found by these checks and repaired (179a36b, 6ac6d15).",
+    'technique': "Lean 4 proof (induction over attempts; order-independence of consistent writes; refinement via C16) + differential correspondence + end-to-end oracle",
+}
+
 NOT_APPLICABLE = []
